@@ -94,6 +94,16 @@ func TestSim(t *testing.T) {
 		if err := writeJSON(out+"/hashes.json", recs); err != nil {
 			t.Fatal(err)
 		}
+	case "dettest":
+		// debugging aid: one run seed, recorded once and replayed several times
+		seed := envU64("VERIF_ONE_SEED", 1)
+		c, o := EvalFresh(t, ch, seed, tier)
+		fmt.Printf("record trace=%s log=%s runs=%d\n", o.TraceHash, o.LogHash, o.Runs)
+		fmt.Printf("scenario meta=%v cancels=%v faults=%v torn=%v rmrepo=%d knobs=%+v sched=%+v procs=%+v\n", c.Scenario.Meta, c.Scenario.Cancels, c.Scenario.Faults, c.Scenario.Torn, c.Scenario.RmRepoAt, c.Scenario.Knobs, c.Scenario.Sched, c.Scenario.Procs)
+		for i := 0; i < envInt("VERIF_REPEATS", 5); i++ {
+			o2 := EvalReplay(t, ch, c)
+			fmt.Printf("replay trace=%s log=%s same=%v\n", o2.TraceHash, o2.LogHash, o2.TraceHash == o.TraceHash)
+		}
 	case "minimize":
 		c, err := readCase(os.Getenv("VERIF_CASE"))
 		if err != nil {
